@@ -40,8 +40,8 @@ def run(ctx):
     q = ctx.quick()
     plan = ctx.path("plan.ndjson")
     ctx.model_check("MCOutcome", "MCOutcome.cfg", workers=4, env={"OUT": plan})
-    ctx.run([vd, "crash-run", "-repo", core.REPO, "-plan", plan, "-seed", str(ctx.seed), "-cap", "70" if q else "0",
-             "-bytes", "1500" if q else "60000", "-bulk", bulk, "-out", ctx.path("trace.ndjson")], timeout=3400)
+    ctx.run([vd, "crash-run", "-repo", core.REPO, "-plan", plan, "-seed", str(ctx.seed), "-cap", "45" if q else "0",
+             "-bytes", "1000" if q else "60000", "-bulk", bulk, "-out", ctx.path("trace.ndjson")], timeout=3400)
     tot = validate(ctx, ctx.path("trace.ndjson"), 16)
     lines = open(ctx.path("trace.ndjson")).read().splitlines()
     samples = []
